@@ -28,6 +28,9 @@ type view struct {
 }
 
 func (v view) coq() string {
+	if v.Patches == nil {
+		v.Patches = []interface{}{}
+	}
 	return fmt.Sprintf("(mk_view %s %s %s %s %s %s %s %s %s %s %s %s)",
 		cBool(v.ParseOK), cBool(v.SignedOK), cBool(v.SigOK), cBool(v.SuffixOK), cBool(v.DeltaHashOK), cBool(v.DeltaValid),
 		cStr(v.UpdateC), cStr(v.RecoveryC), cJSON(v.Origin), cZ(v.From), cZ(v.Until), cJSON(v.Patches)[len("(JArr "):len(cJSON(v.Patches))-1])
@@ -48,6 +51,8 @@ type histStep struct {
 	InputsIntact  bool
 	ParserSeen    *[2]int64 // (from, until) handed to the time validator by a non-batch Parse
 	ParserRefused bool
+	Cfg           protocol.Protocol
+	ByteLevel     bool
 }
 
 type histCase struct {
@@ -126,9 +131,17 @@ func (s *histStep) coq() string {
 	if s.ParserSeen != nil {
 		seen = fmt.Sprintf("(Some (%s, %s))", cZ(s.ParserSeen[0]), cZ(s.ParserSeen[1]))
 	}
-	return fmt.Sprintf("(mk_hstep (Build_anchored %s %s %s %s %s %s %s) %s %s %s %s)",
+	byteLevel := "None"
+	if s.ByteLevel {
+		var tree interface{}
+		if json.Unmarshal(s.Bytes, &tree) != nil {
+			tree = nil
+		}
+		byteLevel = fmt.Sprintf("(Some (%s, %s, %s))", coqProtocol(s.Cfg), urlOracle(tree), cStr(string(s.Bytes)))
+	}
+	return fmt.Sprintf("(mk_hstep (Build_anchored %s %s %s %s %s %s %s) %s %s %s %s %s)",
 		coqType(s.Type), cZu(s.Time), cZu(s.Num), cZu(s.Ver), cStr(s.Canon), cStrList(s.Equiv), s.V.coq(),
-		impl, cBool(s.InputsIntact), seen, cBool(s.ParserRefused))
+		impl, cBool(s.InputsIntact), seen, cBool(s.ParserRefused), byteLevel)
 }
 
 func (c *histCase) coq() string {
@@ -650,6 +663,7 @@ func runHistory(c *histCase, cfgs []protocol.Protocol) {
 	composer := doccomposer.New()
 	for i, s := range c.Steps {
 		cfg := cfgs[i]
+		s.Cfg = cfg
 		parser := operationparser.New(cfg)
 		applier := operationapplier.New(cfg, parser, composer)
 		aop := &operation.AnchoredOperation{
